@@ -631,7 +631,7 @@ termination_by t => tySize t
 decreasing_by all_goals (subst_vars; simp [tySize])
 
 theorem fits_doc (c : Cfg) (decl : Fields) : ∀ (d : BFields), bridgeDoc c decl d = true →
-    ∀ k o v, (k, o, v) ∈ docOf c d → ∀ i t, TextDe.lookupIdx (TextDe.decode .w1252 k) (trFields decl) 0 = some (i, t) →
+    ∀ k o v, (k, o, v) ∈ docOf c d → ∀ i t, TextDe.lookupIdx (TextDe.decode .w1252 k.bytes) (trFields decl) 0 = some (i, t) →
       FitsT .w1252 true t v
   | .nil, _, k, o, v, hm, _, _, _ => by simp [docOf] at hm
   | .cons g key val rest, hb, k, o, v, hm, i, t, hl => by
@@ -648,8 +648,8 @@ theorem fits_doc (c : Cfg) (decl : Fields) : ∀ (d : BFields), bridgeDoc c decl
           simp only [Prod.mk.injEq, hk, Option.getD_some] at hm
           obtain ⟨rfl, rfl, rfl⟩ := hm
           rw [← decode1252_eq] at hl
-          obtain ⟨la1, la2⟩ := lookup_agree decl (decode1252 k) 0
-          cases hp : decl.posName (decode1252 k) 0 with
+          obtain ⟨la1, la2⟩ := lookup_agree decl (decode1252 kb) 0
+          cases hp : decl.posName (decode1252 kb) 0 with
           | none => rw [la1 hp] at hl; cases hl
           | some j =>
             obtain ⟨n, tk, t0, g1, _, _, g4⟩ := la2 j hp
